@@ -50,8 +50,10 @@ type c09Scenario struct {
 	JamDur            time.Duration
 	RetryDur          time.Duration
 	PreAlloc          int
-	NilHandler        bool  `json:"nil_panic_handler,omitempty"`
-	Retune            []int `json:"batch_size_set_at_run_time,omitempty"`
+	NilHandler        bool   `json:"nil_panic_handler,omitempty"`
+	Retune            []int  `json:"batch_size_set_at_run_time,omitempty"`
+	Ctor              string `json:"pool_construction"` // setters | settings-struct | set-settings-struct | set-job-queue
+	InvSetters        bool   `json:"invokable_built_with_setters,omitempty"`
 	KeepQueueOpen     bool
 	Sibling           bool
 	Submitters        [][]c09Sub
@@ -116,6 +118,11 @@ func genC09(t *simrt.Tape, tier string) Scenario {
 	sc.Sibling = t.Bool(1, 4)
 	// SetPanicHandler(nil): panics are swallowed silently, everything else must stay the same
 	sc.NilHandler = t.Bool(1, 5)
+	// how the pool gets its configuration: setters after NewDefaultWorkerPool(q, nil); a settings struct
+	// (copied from a configured template pool) passed to the constructor or to SetDefaultWorkerPoolSettings;
+	// or a pool created on a placeholder queue that gets its real queue through SetJobQueue
+	sc.Ctor = []string{"setters", "settings-struct", "set-settings-struct", "set-job-queue"}[t.ChooseW([]int{3, 1, 1, 1})]
+	sc.InvSetters = t.Bool(1, 3)
 	if sc.StandBy >= 1 && t.Bool(1, 4) {
 		// the batch size (any value is within the quantifier while stand-by >= 1) is changed through its
 		// setter while the pool is working
@@ -179,18 +186,45 @@ func (sc *c09Scenario) Run(s *simrt.Sim) {
 	// setters after construction. The configuration is applied as one step: otherwise the spawn loop
 	// could create workers under the default settings (stand-by 5, maximum 1000, expiry 5s) that are
 	// outside the configuration this run is about.
-	s.NoPreempt(func() {
-		pool = worker.NewDefaultWorkerPool(q, nil)
-		pool.SetPanicHandler(func(v interface{}) {
+	configure := func(p *worker.DefaultWorkerPool) {
+		p.SetPanicHandler(func(v interface{}) {
 			sc.handler = append(sc.handler, c09Handled{at: s.Stamp(), val: fmt.Sprint(v)})
 		})
 		if sc.NilHandler {
-			pool.SetPanicHandler(nil)
+			p.SetPanicHandler(nil)
 		}
-		pool.SetWorkerSizeMaximum(sc.Max).SetWorkerSizeStandBy(sc.StandBy).SetWorkerBatchSize(sc.Batch).
+		p.SetWorkerSizeMaximum(sc.Max).SetWorkerSizeStandBy(sc.StandBy).SetWorkerBatchSize(sc.Batch).
 			SetSpawnWorkerDuration(sc.SpawnDur).SetWorkerExpiryDuration(sc.ExpiryDur).SetWorkerJamDuration(sc.JamDur).SetScheduleRetryInterval(sc.RetryDur)
 		if sc.KeepQueueOpen {
-			pool.SetIsJobQueueClosedWhenClose(false)
+			p.SetIsJobQueueClosedWhenClose(false)
+		}
+	}
+	s.NoPreempt(func() {
+		switch sc.Ctor {
+		case "settings-struct", "set-settings-struct":
+			// a template pool on its own queue is configured and closed at once; its settings value is
+			// what the pool under test is built from
+			tq := fpgo.NewBufferedChannelQueue[func()](1, 1, 1)
+			tmpl := worker.NewDefaultWorkerPool(tq, nil)
+			configure(tmpl)
+			st := tmpl.DefaultWorkerPoolSettings
+			tmpl.SetIsJobQueueClosedWhenClose(true)
+			tmpl.Close()
+			if sc.Ctor == "settings-struct" {
+				pool = worker.NewDefaultWorkerPool(q, &st)
+			} else {
+				pool = worker.NewDefaultWorkerPool(q, nil)
+				pool.SetDefaultWorkerPoolSettings(st)
+			}
+		case "set-job-queue":
+			q0 := fpgo.NewBufferedChannelQueue[func()](1, 1, 1)
+			pool = worker.NewDefaultWorkerPool(q0, nil)
+			pool.SetJobQueue(q)
+			configure(pool)
+			q0.Close()
+		default:
+			pool = worker.NewDefaultWorkerPool(q, nil)
+			configure(pool)
 		}
 	})
 	if sc.Sibling {
@@ -249,6 +283,9 @@ func (sc *c09Scenario) Run(s *simrt.Sim) {
 					rec.sub = h.Do(name, "ScheduleWithTimeout", rec.id, func() (interface{}, error) { return sb.T, pool.ScheduleWithTimeout(job, sb.T) })
 				case "Invoke":
 					inv := worker.NewDefaultInvokable[int](pool, func(int) { job() })
+					if sc.InvSetters {
+						inv = worker.NewDefaultInvokable[int](nil, nil).SetWorkerPool(pool).SetCallee(func(int) { job() })
+					}
 					rec.sub = h.Do(name, "Invoke", rec.id, func() (interface{}, error) { inv.Invoke(rec.id); return nil, nil })
 				case "InvokeWithTimeout":
 					inv := worker.NewDefaultInvokable[int](pool, func(int) { job() })
